@@ -45,6 +45,9 @@ def lean_obligations(pid, tier, log):
     thms = cfg["theorems"]
     mods = cfg.get("modules", [f"SfsModel.Props.{pid}"])
     problems = []
+    if os.environ.get("VERIF_DEV_SKIP_LEAN") and REPO != "/repo":
+        # development only (scratch repository, no evidence written): correspondence alone, while proofs are being edited
+        return thms, [], ["development run: theorems not checked"], "skipped"
     checker = "cd lean && lake build %s sfsmodel && lake env lean <audit: #print axioms per theorem>" % " ".join(cfg.get("modules", [f"SfsModel.Props.{pid}"]))
     with Lock("lake.lock"):
         # source tie for constants: regenerate Generated/SourceConsts.lean from the repository as it is now (Props/Tie.lean)
